@@ -33,4 +33,22 @@ REGISTRY = {
         'explanation': 'contracts on the authentication / session / virtual host functions discharged by z3',
         'not_decided': ['parse_http_list/parse_keqv_list grammar inside parseAuthorization (abstracted)', 'MD5-sess / auth-int variants'],
     },
+    'C11': {
+        'modules': ['contracts.sockets'], 'level': 'proof',
+        'level_text': 'Ghost byte-conservation invariant accepted ++ flatten(buffer) = offered, proved for every outcome of send '
+                      '(accept k of n, each errno class) on every path of write/_write/_on_write/close of Server, Client and File; '
+                      'induction over the history of operations is the standard invariant argument (DESIGN 3.1).',
+        'level_note': 'trusted: socket.send/os.write contract (n in [0,len], prefix accepted, or OSError with nothing accepted), '
+                      'BasePoller operations by their contract (C10), lists of sockets viewed as multisets.',
+        'explanation': 'conservation and deferred-close contracts discharged by z3/cvc5',
+    },
+    'C12': {
+        'modules': ['contracts.sockets'], 'level': 'proof',
+        'level_text': 'Per-operation contracts: one connect on accept, one read event per non-empty recv with those bytes, exactly one '
+                      'disconnect from _close for a connected socket, and the NoResidue invariant (no client/buffer/close-queue/poller '
+                      'entry for a socket that is gone) preserved by every handler including late write/close/_on_write.',
+        'level_note': 'trusted: socket.recv/send/close/shutdown/getpeername contracts; peer behaviour enters only through them; '
+                      'poller by its BasePoller contract (C10).',
+        'explanation': 'life-cycle and residue contracts discharged by z3/cvc5',
+    },
 }
